@@ -7,6 +7,7 @@
              linearizable by construction must be accepted, corrupted ones rejected)
   c07.synthsmall  random histories of ≤ 7 calls: the greedy search must agree with brute force
              (`wf` reports how many of them are linearizable)
+  c07.race   go-run-race  =>  <ran> <race reported> <wrong final count>   (stress under `go run -race`)
   c07.facts  sequencer.go  =>  <6 bools> <maxInitialRandomSequenceNumber>
 
   c06.hist   <mtu> <pt> <ssrc> <ts0> <seqStart> <payloader name> <n> op*  =>  <n> opobs*
@@ -152,7 +153,17 @@ def c06hist : Handler :=
     (fun (cfg, ops) o => Pred.C06.histOk cfg ops o)
     (fun (cfg, ops) => Pred.C06.wf cfg ops)
 
+/-- `c07.race go-run-race => <ran> <race reported> <wrong final count>`: the stress program under
+    the Go race detector; nothing may be reported (when the detector cannot be run: vacuous) -/
+def c07race : Handler :=
+  mkHandler Rd.tok (do let a ← Rd.bool; let b ← Rd.bool; let c ← Rd.bool; pure (a, b, c))
+    (fun _ => (true, false, false))
+    (fun _ o => !o.2.1 && !o.2.2)
+    (fun _ => true)
+    (fun _ o => if o.1 then none else some "race-detector-unavailable")
+
 def handlers : List (String × Handler) :=
   [("c07.run", c07run), ("c07.hist", c07hist), ("c07.facts", c07facts), ("c07.synth", c07hist),
-   ("c07.synthbad", c07histBad), ("c07.synthsmall", c07histSmall), ("c06.hist", c06hist)]
+   ("c07.synthbad", c07histBad), ("c07.synthsmall", c07histSmall), ("c07.race", c07race),
+   ("c06.hist", c06hist)]
 end Rtp.Kinds.Pktz
